@@ -174,15 +174,13 @@ def r_configs(tier):
         for loops in (2, 3, -1):
             for cache in (True, 2, 3):
                 out.append(cf(2, loops, cache, 100 if loops != 3 else "DYN", "E0" if cache != 3 else "Arel", "small"))
-            out.append(cf(2, loops, 1, 100, "E0", "wide"))
-            out.append(cf(3, loops, 2, 100, "E0", "full"))
             for cache, prof in ((True, "tiny"), (3, "dur"), (4, "args"), (True, "size"), (3, "pad")):
                 out.append(cf(3, loops, cache, 100, "E0", prof))
-        out.append(cf(3, 2, True, 100, "E0", "small"))                  # the big one
-        out.append(cf(2, 2, True, 100, "E0", "full"))
+        out.append(cf(2, 2, 1, 100, "E0", "wide"))                      # disabled by cache < n
+        out.append(cf(3, 2, 2, 100, "E0", "small"))                     # disabled by cache < n
         out.append(cf(4, 2, True, 100, "E0", "dur"))
         out.append(cf(4, -1, 4, 100, "E0", "args"))
-        out.append(cf("I3", 2, True, 100, "E0", "small"))
+        out.append(cf("I3", 2, True, 100, "E0", "small"))               # cache ignored for INDEFINITE
     return out
 
 
@@ -367,8 +365,8 @@ def i_judge(p, op):
     return None
 
 
-def i_ops(tier="thorough"):
-    if tier == "quick":
+def i_ops(alpha="full"):
+    if alpha == "quick":
         return ([("next",), ("close",), ("resize",)] + [("seek", k) for k in (0, 2, 3)]
                 + [("size", s) for s in ("A", "D")])
     return ([("next",), ("close",), ("resize",)] + [("seek", k) for k in (-1, 0, 1, 2, 3)]
@@ -376,13 +374,15 @@ def i_ops(tier="thorough"):
 
 
 def i_configs(tier):
-    def cf(style, spec, cached, repeat, size0):
-        return dict(style=style, spec=spec, cached=cached, repeat=repeat, size0=size0)
+    def cf(style, spec, cached, repeat, size0, alpha="quick"):
+        return dict(style=style, spec=spec, cached=cached, repeat=repeat, size0=size0, alpha=alpha)
 
     if tier == "quick":
         return [cf("block", "1.1", True, 2, "A"), cf("block", "1.1", 3, -1, "D"), cf("block", "1.1", 2, 2, "A"),
                 cf("kitty", "1.1+L", True, 2, "D"), cf("iterm2", "1.1+W", 4, -1, "A")]
-    out = []
+    out = [cf("block", "1.1", True, 2, "A", "full"), cf("block", "1.1", True, -1, "D", "full"),
+           cf("block", "1.1", 3, 3, "A", "full"), cf("kitty", "1.1+L", True, 2, "D", "full"),
+           cf("iterm2", "1.1+W", True, 2, "A", "full")]
     for style, specs in (("block", ["1.1"]), ("kitty", ["1.1+L", "1.1+W"]), ("iterm2", ["1.1+L", "1.1+W"])):
         for spec in specs:
             for cached, repeat in ((True, 2), (True, -1), (3, 3), (4, 2), (2, 2), (True, 1)):
@@ -393,8 +393,8 @@ def i_configs(tier):
     return out
 
 
-def i_explore(col, cfg, tier="thorough"):
-    ops = i_ops(tier)
+def i_explore(col, cfg):
+    ops = i_ops(cfg["alpha"])
     stats = dict(id=("I", repr(sorted(cfg.items()))))
     saved = [0]
 
@@ -415,7 +415,7 @@ def _shard(items):
     col = _CTX.new_collector()
     for part, cfg in items:
         try:
-            stats = r_explore(col, cfg) if part == "R" else i_explore(col, cfg, _CTX.tier)
+            stats = r_explore(col, cfg) if part == "R" else i_explore(col, cfg)
         except world.HarnessError:
             raise
         except Exception as e:
@@ -440,7 +440,7 @@ def run(ctx):
     items = [("I", c) for c in i_configs(ctx.tier)] + [("R", c) for c in r_configs(ctx.tier)]
     items = explore.rotate(items)
     big = {"small": 5, "full": 2, "wide": 3}
-    items.sort(key=lambda it: -(4 if it[0] == "I" else big.get(it[1]["profile"], 1) * (12 if (it[1]["profile"], it[1]["n"]) == ("small", 3) else 1)))
+    items.sort(key=lambda it: -((20 if it[1]["alpha"] == "full" else 4) if it[0] == "I" else big.get(it[1]["profile"], 1)))
     for col in explore.pmap(_shard, items, chunks_per_proc=len(items)):
         ctx.merge(col)
     world.uninstall()
@@ -451,7 +451,7 @@ def run(ctx):
         fixpoint=True,
         part_R=dict(alphabets={k: v for k, v in M.PROFILES.items() if k in {c["profile"] for p, c in items if p == "R"}},
                     seek_offsets="-n-1 .. n+1 for START, CURRENT, END", configurations=[c for p, c in items if p == "R"]),
-        part_I=dict(ops=[list(o) for o in i_ops(ctx.tier)], gif=f"{NFRAMES} frames {GIF_PX[0]}x{GIF_PX[1]} px",
+        part_I=dict(ops=dict(quick=[list(o) for o in i_ops('quick')], full=[list(o) for o in i_ops('full')]), gif=f"{NFRAMES} frames {GIF_PX[0]}x{GIF_PX[1]} px",
                     terminals=[list(T1), list(T2)], sizes=dict(A="width=2", B="3x1", D="Size.FIT (dynamic)"),
                     configurations=[c for p, c in items if p == "I"]),
     )
